@@ -203,6 +203,20 @@ func mutantsOf(carrier string, doc map[string]any) []mutant {
 					})
 				}
 			}
+			if _, isSchema := x["type"]; isSchema {
+				// goag's own extensions on a schema object: custom Go types in every spelling, time formats
+				for _, gt := range []string{"Page", "pkg.Page", "github.com/vkd/Page", "github.com/vkd/x.Page", "a.b/c", ".", "x.", "/", ""} {
+					gt := gt
+					add("GoType:"+gt, p, func(d any) { getAt(d, p).(map[string]any)["x-goag-go-type"] = gt })
+				}
+				add("GoType:number", p, func(d any) { getAt(d, p).(map[string]any)["x-goag-go-type"] = 7 })
+				if x["format"] == "date-time" {
+					for _, tf := range []any{"time.RFC3339", "", "2006-01-02", 7} {
+						tf := tf
+						add(fmt.Sprintf("TimeFormat:%v", tf), p, func(d any) { getAt(d, p).(map[string]any)["x-goag-go-time-format"] = tf })
+					}
+				}
+			}
 			if len(p) >= 2 && p[len(p)-2] == "schemas" {
 				name := p[len(p)-1]
 				add("CyclicRef", p, func(d any) { setAt(d, p, map[string]any{"$ref": "#/components/schemas/" + name}, false) })
